@@ -179,6 +179,33 @@ Definition rs_decode_utf16_first (l : list N) : option (rresult N unit) :=
     else Some (RErr tt)
   end.
 Local Close Scope N_scope.
+(* `&s[a..b]` for a `str` given as the list of its scalar values: [a] and [b] are BYTE offsets; the slice panics
+   unless a <= b and both fall on character boundaries inside the string *)
+Fixpoint rs_str_drop (t : list N) (a : nat) : option (list N) :=
+  match a with
+  | O => Some t
+  | _ => match t with
+         | [] => None
+         | c :: rest => if (rs_len_utf8 c <=? a)%nat then rs_str_drop rest (a - rs_len_utf8 c) else None
+         end
+  end.
+Fixpoint rs_str_take (t : list N) (n : nat) : option (list N) :=
+  match n with
+  | O => Some []
+  | _ => match t with
+         | [] => None
+         | c :: rest => if (rs_len_utf8 c <=? n)%nat
+                        then match rs_str_take rest (n - rs_len_utf8 c) with Some r => Some (c :: r) | None => None end
+                        else None
+         end
+  end.
+Definition rs_str_slice (t : list N) (r : nat * nat) : res (list N) :=
+  if (fst r <=? snd r)%nat
+  then match rs_str_drop t (fst r) with
+       | Some t1 => match rs_str_take t1 (snd r - fst r) with Some t2 => Ok t2 | None => Panic site_index end
+       | None => Panic site_index
+       end
+  else Panic site_index.
 (* `&v[a..]` *)
 Definition rs_slice_from {A} (l : list A) (a : nat) : res (list A) :=
   if (a <=? length l)%nat then Ok (skipn a l) else Panic site_index.
